@@ -18,7 +18,10 @@ GUARD = 'LIBSNDFILE_VERIF'
 
 UBSAN = ('bounds,integer-divide-by-zero,null,return,unreachable,vla-bound,object-size,'
          'pointer-overflow,nonnull-attribute,bool,enum')
-SANFLAGS = '-fsanitize=address,' + UBSAN + ' -fno-sanitize-recover=all -fsanitize-recover=bounds'
+# UBSan stays in its default recoverable mode: a report is printed (and turned into a violation keyed by file/function/message from stderr) and the
+# process goes on, so that the case is attributed by the following crash record or by the end-of-shard record.  With -fno-sanitize-recover gcc's
+# libubsan ends the process with exit code 1 without running the ASan death callback, and the running case would be lost.
+SANFLAGS = '-fsanitize=address,' + UBSAN
 VARIANTS = {
     # name: (compiler, cflags for the library, cflags for monitors)
     'asan':  ('gcc', '-O1 -g -fno-omit-frame-pointer ' + SANFLAGS + ' -D' + GUARD,
